@@ -204,6 +204,21 @@ def run(case):
         ntrans += 1
         if not np.array_equal(a3, keep):
             bad(f"aliasing/{fname}/caller-mutation", f"{fname}(r) after the caller modified an earlier result in place differs from the first evaluation (result array owned by the element object)", float(np.abs(a3 - keep).max()), 0)
+        # a caller may re-use ONE point container and overwrite it in place between calls (completely, and in one coordinate):
+        # the element must evaluate the values the container holds at the time of the call
+        el_fresh = getattr(fem.element, cls)(**kwc)
+        for how in ("whole", "first-coordinate", "list"):
+            pt = r1.copy() if how != "list" else r1.tolist()
+            fn(pt)
+            if how == "whole":
+                pt[:] = r2
+            else:
+                pt[0] = float(r2[0])
+            got = np.asarray(fn(pt), dtype=float)
+            want = np.asarray(getattr(el_fresh, fname)(np.array(pt, dtype=float)), dtype=float)
+            ntrans += 3
+            if got.shape != want.shape or np.abs(got - want).max() > 1e-13 * max(np.abs(want).max(), 1.0):
+                bad(f"aliasing/{fname}/point-container-reused/{how}", f"{fname}(point) after the SAME point container was overwritten in place returns the values of the earlier point", float(np.abs(got - want).max()) if got.shape == want.shape else list(got.shape), 0)
 
     # (v) degree bound: interpolate the tabulated function onto a shifted lattice
     y = lo + (hi - lo) * (np.arange(n + 1) + 0.37) / (n + 1.3)
